@@ -14,11 +14,14 @@ namespace Gonuts.Model.Mint
 
 structure WAuto where
   A : Type
+  /-- effects the automaton does not look at; they must not change a table -/
+  isRead : {β : Type} → Eff β → Bool
+  isRead_ro : ∀ {β : Type} (e : Eff β), isRead e = true → e.readOnly = true
   step : A → {β : Type} → Eff β → β → Option A
 
 def Conf (M : WAuto) {α : Type} (Q : α → M.A → Prop) : M.A → Prog α → Prop
   | a, .ret x => Q x a
-  | a, .eff e k => (e.readOnly = true ∧ ∀ r, Conf M Q a (k r)) ∨ (∀ r, ∃ a', M.step a e r = some a' ∧ Conf M Q a' (k r))
+  | a, .eff e k => (M.isRead e = true ∧ ∀ r, Conf M Q a (k r)) ∨ (∀ r, ∃ a', M.step a e r = some a' ∧ Conf M Q a' (k r))
 
 def Sound (M : WAuto) (Rel : M.A → DB → Prop) : Prop :=
   ∀ (a a' : M.A) {β : Type} (e : Eff β) (w : World), M.step a e (exec w e).2 = some a' → Rel a w.db → Rel a' (exec w e).1.db
@@ -34,7 +37,7 @@ theorem conf_runN (M : WAuto) (Rel : M.A → DB → Prop) (hs : Sound M Rel) {α
     | succ n =>
       simp only [Prog.runN]
       rcases hc with ⟨hro, hk⟩ | hk
-      · exact ih _ n _ a (hk _) (by rw [exec_readOnly_db w e hro]; exact hr)
+      · exact ih _ n _ a (hk _) (by rw [exec_readOnly_db w e (M.isRead_ro e hro)]; exact hr)
       · obtain ⟨a', hst, hc'⟩ := hk (exec w e).2
         exact ih _ n _ a' hc' (hs a a' e w hst hr)
 
@@ -71,10 +74,55 @@ theorem Conf.pmBind (M : WAuto) {α β : Type} (Q : Except E α → M.A → Prop
   | ok v => exact hok v a' hq
   | error e => exact herr e a' hq
 
-/-- a program without writes stays where it is -/
-theorem Conf.ofNoWrites (M : WAuto) {α : Type} (p : Prog α) (h : NoWrites p) (a : M.A) : Conf M (fun _ a' => a' = a) a p := by
+/-- a program whose effects the automaton does not look at stays where it is -/
+def AllRead (M : WAuto) {α : Type} : Prog α → Prop
+  | .ret _ => True
+  | .eff e k => M.isRead e = true ∧ ∀ r, AllRead M (k r)
+
+theorem Conf.ofAllRead (M : WAuto) {α : Type} (p : Prog α) (h : AllRead M p) (a : M.A) : Conf M (fun _ a' => a' = a) a p := by
   induction p with
   | ret x => rfl
   | eff e k ih => exact Or.inl ⟨h.1, fun r => ih r (h.2 r)⟩
+
+/-- for automata that look at every write (and only at writes) -/
+theorem AllRead.ofNoWrites (M : WAuto) (hM : ∀ {β : Type} (e : Eff β), e.readOnly = true → M.isRead e = true)
+    {α : Type} (p : Prog α) (h : NoWrites p) : AllRead M p := by
+  induction p with
+  | ret x => trivial
+  | eff e k ih => exact ⟨hM e h.1, fun r => ih r (h.2 r)⟩
+
+/-! ## the moment before a call
+
+  `nextN p n w`: the world after `n` calls of `p` and the effect `p` is about to perform next (`none`: `p` has returned
+  before).  `conf_next`: at that moment the tables are in the relation of an abstract state in which that effect is allowed
+  — so an effect the automaton allows in ONE state only is only ever performed with the tables in that state. -/
+
+def Prog.nextN {α : Type} : Prog α → Nat → World → Option (World × (Σ β : Type, Eff β))
+  | .ret _, _, _ => none
+  | .eff e _, 0, w => some (w, ⟨_, e⟩)
+  | .eff e k, n + 1, w => (k (exec w e).2).nextN n (exec w e).1
+
+theorem conf_next (M : WAuto) (Rel : M.A → DB → Prop) (hs : Sound M Rel) {α : Type} (Q : α → M.A → Prop)
+    (p : Prog α) (n : Nat) (w : World) (a : M.A) (hc : Conf M Q a p) (hr : Rel a w.db)
+    (w' : World) (β : Type) (e : Eff β) (hn : p.nextN n w = some (w', ⟨β, e⟩)) :
+    ∃ a', Rel a' w'.db ∧ (M.isRead e = true ∨ ∀ r, ∃ a'', M.step a' e r = some a'') := by
+  induction p generalizing n w a with
+  | ret x => cases n <;> cases hn
+  | eff e0 k ih =>
+    cases n with
+    | zero =>
+      simp only [Prog.nextN, Option.some.injEq, Prod.mk.injEq] at hn
+      obtain ⟨rfl, he⟩ := hn
+      cases he
+      refine ⟨a, hr, ?_⟩
+      rcases hc with ⟨hro, _⟩ | hk
+      · exact Or.inl hro
+      · exact Or.inr fun r => let ⟨a', h1, _⟩ := hk r; ⟨a', h1⟩
+    | succ n =>
+      simp only [Prog.nextN] at hn
+      rcases hc with ⟨hro, hk⟩ | hk
+      · exact ih _ n _ a (hk _) (by rw [exec_readOnly_db w e0 (M.isRead_ro e0 hro)]; exact hr) hn
+      · obtain ⟨a', hst, hc'⟩ := hk (exec w e0).2
+        exact ih _ n _ a' hc' (hs a a' e0 w hst hr) hn
 
 end Gonuts.Model.Mint
